@@ -803,7 +803,7 @@ func c08CondCounters(st *State) (wait, notify uint32) {
 	return uint32(v.FieldByName("wait").Uint()), uint32(v.FieldByName("notify").Uint())
 }
 
-var c08Deadline = 10 * time.Second
+var c08Deadline = 30 * time.Second
 
 type c08Timeout struct{ what string }
 
